@@ -157,6 +157,19 @@ def rules(ctx: Ctx) -> None:
     prov_nodes = [c for c in fcfg.nodes.values() if c.ast is not None and c.kind in ("stmt", "cond", "for") and any(isinstance(k, ast.Call) and isinstance(k.func, ast.Attribute) and k.func.attr == "get_table_columns"
                   for k in ast.walk(c.ast.iter if c.kind == "for" else c.ast)) and any(a is PL for a in prog.ancestors(c.ast))]
     ctx.ob("R04.3", "repair:graph-before-provider", bool(graph_nodes), loc(fold.mod, PL), "the repair looks the column up in the graph (columns defined by an earlier statement)", trivial=True)
+    # a candidate found in the graph is accepted because it is there - the look-up is the whole condition (a further condition on how the column got
+    # there - "written by a statement" - leaves columns of declared tables unresolved)
+    fl4 = flow(prog, fold)
+    for gn in graph_nodes:
+        if gn.kind != "cond":
+            continue
+        for k in [x for x in ast.walk(PL) if isinstance(x, ast.Call) and isinstance(x.func, ast.Attribute) and x.func.attr in ("append", "add") and fcfg.node_for(x) is not None and fcfg.reach(gn.id, fcfg.node_for(x))
+                  and any(p_ and "has_edge" in t_ for t_, p_ in fl4.facts_for(x))]:
+            # every condition between the pair loop and the insertion (conjuncts, disjuncts and negations alike) other than the look-up itself
+            from ..astutil import controlling_atoms as _catoms
+            extra = [u(a_)[:60] for a_ in _catoms(prog.parents, k) if "has_edge" not in u(a_) and any(anc is PL for anc in prog.ancestors(a_))]
+            ctx.ob("R04.3", "repair:graph-candidate-accepted-because-it-is-in-the-graph", not extra, loc(fold.mod, k),
+                   f"`{u(k)[:50]}` " + ("is conditioned on the graph look-up alone" if not extra else f"also depends on `{extra[0]}`"))
     # accumulators the graph look-up fills
     accs = set()
     for gnode in graph_nodes:
